@@ -12,6 +12,9 @@ Proof.
     exists (f h ++ a), b. rewrite Ha, Hb, !app_assoc. auto.
 Qed.
 
+Lemma nth_error_upd_nth_same_eq {A} (l : list A) i x : nth_error l i = Some x -> l = upd_nth i x l.
+Proof. revert i; induction l as [|h t IH]; intros [|j] H; cbn in *; try discriminate; [congruence|f_equal; auto]. Qed.
+
 Lemma mark_same m c v : mark m c v c = v.
 Proof. unfold mark. now rewrite N.eqb_refl. Qed.
 Lemma mark_other m c v k : k <> c -> mark m c v k = m k.
@@ -134,3 +137,92 @@ Proof. exists [0; 1; 0; 1]. vm_compute. reflexivity. Qed.
 
 Example gen_premises : (forall g, In g [init_gen 100 [OpGen; OpRel; OpGen] [5;5;6]%N []; init_gen 100 [OpGen] [5;6]%N [true]] -> held g = []).
 Proof. intros g [<-|[<-|[]]]; reflexivity. Qed.
+
+(* ---- the fallback inside ONE generator instance: check-then-set under that instance's mutex is safe
+   for every schedule (what the "fallback" mode of the harness exercises on the real code) ---- *)
+Definition f_checked (g : fgen) : list id := match f_pc g with FChecked c => [c] | _ => [] end.
+Definition f_done (g : fgen) : list id := match f_pc g with FDone c => [c] | _ => [] end.
+
+Definition FInv (s : fshared * list fgen) : Prop :=
+  let sh := fst s in let ts := snd s in
+  (forall g, In g ts -> f_inst g = 0) /\
+  (length (flat_map f_checked ts) <= 1) /\
+  (f_locks sh 0 = false -> flat_map f_checked ts = []) /\
+  (forall c, In c (flat_map f_checked ts) -> f_marks sh c = false) /\
+  (forall c, In c (flat_map f_done ts) -> f_marks sh c = true) /\
+  NoDup (flat_map f_done ts).
+
+Lemma in_upd_nth {A} (l : list A) i x y : In y (upd_nth i x l) -> y = x \/ In y l.
+Proof.
+  revert i; induction l as [|h t IH]; intros [|j] H; cbn in *; auto.
+  - destruct H as [H|H]; auto.
+  - destruct H as [H|H]; auto. destruct (IH j H); auto.
+Qed.
+
+Lemma finv_upd (sh sh' : fshared) ts i g g' :
+  nth_error ts i = Some g -> f_inst g = 0 -> f_inst g' = 0 ->
+  (forall x, In x ts -> f_inst x = 0) ->
+  forall x, In x (upd_nth i g' ts) -> f_inst x = 0.
+Proof. intros E Hg Hg' Hall x Hx. apply in_upd_nth in Hx. destruct Hx as [->|Hx]; auto. Qed.
+
+Lemma finv_step s i : FInv s -> FInv (sys_step _ _ fstep s i).
+Proof.
+  destruct s as [sh ts]. unfold FInv, sys_step. cbn [fst snd].
+  intros (Hinst & Hlen & Hfree & Hchk & Hdone & Hnd).
+  destruct (nth_error ts i) as [g|] eqn:E; [|cbn; auto 10].
+  assert (Hg0 : f_inst g = 0) by (apply Hinst; eapply nth_error_In; eauto).
+  destruct (fstep g sh) as [g' sh'] eqn:Es. cbn [fst snd].
+  destruct (flat_map_upd_nth f_checked ts i g g' E) as (a & b & Ha & Hb).
+  destruct (flat_map_upd_nth f_done ts i g g' E) as (a' & b' & Ha' & Hb').
+  rewrite Hb, Hb'. rewrite Ha in Hlen, Hfree, Hchk. rewrite Ha' in Hdone, Hnd.
+  unfold fstep in Es. destruct (f_pc g) eqn:Epc.
+  - (* FIdle *)
+    assert (Hcg : f_checked g = []) by (unfold f_checked; now rewrite Epc).
+    assert (Hdg : f_done g = []) by (unfold f_done; now rewrite Epc).
+    rewrite Hcg in Hlen, Hfree, Hchk. rewrite Hdg in Hdone, Hnd. cbn [app] in *.
+    rewrite Hg0 in Es. destruct (f_locks sh 0) eqn:Elk.
+    { inversion Es; subst g' sh'. rewrite Hcg, Hdg, Elk. cbn [app].
+      split; [eapply finv_upd; eauto|]. auto 10. }
+    specialize (Hfree eq_refl). apply app_eq_nil in Hfree. destruct Hfree as [-> ->].
+    destruct (f_marks sh (f_cand g)) eqn:Em; inversion Es; subst g' sh'; cbn [f_marks f_locks f_inst].
+    + split; [eapply finv_upd; eauto|]. cbn. rewrite Elk. auto 10.
+    + split; [eapply finv_upd; eauto|]. cbn.
+      split; [lia|]. split; [discriminate|]. split; [intros c [<-|[]]; exact Em|]. split; assumption.
+  - (* FChecked c: write the marker, release the lock *)
+    assert (Hcg : f_checked g = [c]) by (unfold f_checked; now rewrite Epc).
+    assert (Hdg : f_done g = []) by (unfold f_done; now rewrite Epc).
+    rewrite Hcg in Hlen, Hfree, Hchk. rewrite Hdg in Hdone, Hnd. cbn [app] in *.
+    assert (Hab : a = [] /\ b = []).
+    { rewrite app_length in Hlen. cbn in Hlen. destruct a, b; cbn in Hlen; try lia. auto. }
+    destruct Hab as [-> ->].
+    assert (Hmc : f_marks sh c = false) by (apply Hchk; cbn; auto).
+    assert (Hnc : ~ In c (a' ++ b')) by (intros Hin; apply Hdone in Hin; congruence).
+    inversion Es; subst g' sh'; cbn [f_marks f_locks f_inst].
+    split; [eapply finv_upd; eauto|]. cbn.
+    split; [lia|]. split; [reflexivity|]. split; [intros c' []|].
+    split.
+    + intros c' Hc'. destruct (N.eq_dec c' c) as [->|Hne]; [apply mark_same|].
+      rewrite mark_other by exact Hne. apply Hdone.
+      apply in_app_or in Hc'. destruct Hc' as [Hc'|[Hc'|Hc']]; [apply in_or_app; auto|congruence|apply in_or_app; auto].
+    + apply NoDup_Add with (a := c) (l := a' ++ b'); [apply Add_app|split; assumption].
+  - inversion Es; subst g' sh'. split; [eapply finv_upd; eauto|]. auto 10.
+  - inversion Es; subst g' sh'. split; [eapply finv_upd; eauto|]. auto 10.
+Qed.
+
+Theorem fallback_one_instance_unique (cands : list id) sched :
+  let s := run _ _ fstep ({| f_marks := fun _ => false; f_locks := fun _ => false |},
+                          map (fun c => {| f_inst := 0; f_cand := c; f_pc := FIdle |}) cands) sched in
+  NoDup (flat_map f_done (snd s)).
+Proof.
+  intros s. assert (H : FInv s).
+  { subst s. apply inv_all_schedules; [intros s i; apply finv_step|].
+    unfold FInv. cbn [fst snd].
+    assert (E1 : flat_map f_checked (map (fun c => {| f_inst := 0; f_cand := c; f_pc := FIdle |}) cands) = []).
+    { induction cands; cbn; auto. }
+    assert (E2 : flat_map f_done (map (fun c => {| f_inst := 0; f_cand := c; f_pc := FIdle |}) cands) = []).
+    { induction cands; cbn; auto. }
+    rewrite E1, E2. cbn.
+    split; [intros g Hg; apply in_map_iff in Hg; destruct Hg as (c & <- & _); reflexivity|].
+    split; [lia|]. split; [auto|]. split; [intros c []|]. split; [intros c []|constructor]. }
+  destruct H as (_ & _ & _ & _ & _ & H). exact H.
+Qed.
